@@ -284,6 +284,21 @@ def gen_c04(tier, rng):
             argv.append("".join(chr(rng.choice([45, 45, 45, 61, 97, 110, 111, 118, 0x80, 10, 1 + rng.below(255)]))
                                 for _ in range(n)))
         out.append(pcase("C04", d, {}, argv))
+    # characters that mean something to formatting / pattern / shell machinery, in every role a token can have
+    metas = ["{}", "{", "}", "{}{}", "x{}y", "{0}", "%s", "%n%n", "%", "%d{}", "\\", "$(x)", "*", ".*", "[a", "(", ")", "\\{\\}",
+             "\"", "'", "`", "\t", "\x7f", "\x01"]
+    for d in (ts[0], ts[2], ts[5], ts[6]):
+        longs = [i.name for i in d.vals()][:1]
+        tl = [i.short for i in d.togs() if i.short][:1]
+        for m in metas:
+            toks = ["--" + m, "--" + m + "=v", "--zz=" + m, "-" + m, "-z" + m, "-z=" + m, m, "--no-" + m]
+            toks += ["--" + n + "=" + m for n in longs] + ["--" + n + m for n in longs] + ["-" + x + m for x in tl]
+            for t in toks:
+                out.append(pcase("C04", d, {}, [t]))
+                out.append(pcase("C04", d, {}, ["v", t]))
+            for n in longs:
+                out.append(pcase("C04", d, {}, ["--" + n, m]))
+            out.append(pcase("C04", d, {}, ["--", m, "--" + m]))
     # inconsistent declarations: two options share a letter / an option is called no-<toggle>
     bad1 = D([O("t", "a", "x"), O("o", "b", "x", flag=True)], allowed=None)
     bad2 = D([O("t", "x", "x", flag=True), O("o", "no-x", flag=True)], allowed=None)
